@@ -131,6 +131,28 @@ func runC02(c *eng.Ctx) {
 		f.Has("R4", p.Call("tsdb:memSeries.appendableFloatHistogram"), 1)
 		f.GivenBranch("err == nil", false).Unreachable("R4", pend)
 	}
+	{
+		// v2 re-dispatches a float staleness marker as a histogram marker by calling itself: the option
+		// that affects admission must be forwarded
+		f := c.Fn("tsdb:headAppenderV2.Append")
+		f.Only("R4", p.Call("tsdb:headAppenderV2.Append"), "forwards opts.RejectOutOfOrder", func(l eng.Loc) bool {
+			a := l.Node.(*ast.CallExpr).Args
+			last := eng.ExprString(a[len(a)-1])
+			if last == "opts" {
+				return true
+			}
+			cl, ok := a[len(a)-1].(*ast.CompositeLit)
+			if !ok {
+				return false
+			}
+			for _, el := range cl.Elts {
+				if kv, ok := el.(*ast.KeyValueExpr); ok && eng.ExprString(kv.Key) == "RejectOutOfOrder" && eng.ExprString(kv.Value) == "opts.RejectOutOfOrder" {
+					return true
+				}
+			}
+			return false
+		})
+	}
 	// ---- R5 commit order inside a batch ----
 	cm := c.Fn("tsdb:headAppenderBase.Commit")
 	cm.Chain("R5", p.Call("tsdb:headAppenderBase.commitFloats"), p.Call("tsdb:headAppenderBase.commitHistograms"), p.Call("tsdb:headAppenderBase.commitFloatHistograms"))
